@@ -99,6 +99,14 @@ def _parse_file(path, nodes, meta, deftags):
                 continue
             word = d.split()[0]
             arg = d[len(word):].strip()
+            if word == 'insert':
+                ipath = os.path.join(CONTRACTS, arg)
+                for iln, il in enumerate(open(ipath).read().split('\n'), 1):
+                    if cur is None:
+                        nodes.append(('lit', il, iln, tags, ipath))
+                    elif curblock is not None:
+                        curblock[2].append((il, ln))
+                continue
             if cur is None:
                 if word == 'unit':
                     meta['unit'] = arg
@@ -129,6 +137,8 @@ def _parse_file(path, nodes, meta, deftags):
                     cur.rules.append((arg, ln))
                 elif word == 'novac':
                     cur.novac = True
+                elif word == 'vac':
+                    cur.force_vac = True
                 elif word in ('contract', 'loop', 'hint'):
                     curblock = (word, arg, [])
                     cur.blocks.append(curblock)
